@@ -68,7 +68,7 @@ func c01Classes(ctx *run.Ctx, ind *reg.Indicator) []string {
 }
 
 func c01(ctx *run.Ctx) {
-	nrand := ctx.Pick(10, 40)
+	nrand := ctx.Pick(16, 40)
 	reps := ctx.Pick(1, 3)
 	for _, ind := range reg.Sorted() {
 		ind := ind
@@ -115,6 +115,8 @@ func c01(ctx *run.Ctx) {
 			}
 		}
 	}
+	// Other element types (int, int32, int64, float32) for the additive / ordering types.
+	c01TypedCases(ctx)
 	// Fixed witness cases of the known findings.
 	for wi, wt := range reg.Witnesses {
 		wi, wt := wi, wt
